@@ -68,6 +68,13 @@ def c_table(name, t, n):
         c[1 if n > 1 else 0] = 0.0
         if n == 1:
             c[0] = 1.0      # a single variable with zero gradient has a zero objective: keep it out
+    elif name == 'noise':
+        # one coefficient is rounding noise of the WRONG sign (its sensitivity is a positive number far below every
+        # warning threshold): the variable behaves like one with zero gradient
+        c = [float(np.sqrt(PRIMES[(5 * i + t) % 12])) for i in range(6)]
+        c[1 if n > 1 else 0] = -1e-22
+        if n == 1:
+            c[0] = 1.0
     else:
         raise KeyError(name)
     return np.array(c[:n], dtype=float)
@@ -190,6 +197,9 @@ def problem(case):
     c = c_table(case['c'], t, n) * case.get('cscale', 1.0)     # cscale: magnitude of the objective (1 or 1e-9)
     xmin, xmax, bkw = bounds_table(case['bounds'], t, n)
     x0 = start_table(case['start'], t, n, xmin, xmax, case['move'])
+    if case.get('shared'):       # all (equally sized) variable signals start from ONE array object: equal start values
+        assert len(set(sizes)) == 1
+        x0 = np.tile(x0[:sizes[0]], len(sizes))
     maxvol = maxvol_table(case['maxvol'], n, xmin, xmax)
     return sizes, how, n, c, xmin, xmax, bkw, x0, maxvol
 
@@ -200,7 +210,7 @@ def admissible(case):
         return 'start design not strictly positive (objective c/x undefined)'
     if case.get('xdtype') == 'int' and not np.array_equal(x0, np.round(x0)):
         return 'start design is not integer-valued'
-    if np.any(c == 0) and np.any(oc.full(xmin, n) <= 0):
+    if np.any(c <= 0) and np.any(oc.full(xmin, n) <= 0):
         return 'zero-gradient variable with xmin = 0 (it is driven to x = 0 where c/x is 0/0)'
     if case['kind'] == 'comp' and float(np.dot(c, x0)) <= 0:
         return 'objective undefined'
@@ -217,6 +227,18 @@ def run_once(case, tol, stop):
     sizes, how, n, c, xmin, xmax, bkw, x0, maxvol = problem(case)
     offs = np.concatenate([[0], np.cumsum(sizes)]).astype(int)
     sigs = [pym.Signal(f'x{i}', x0[offs[i]:offs[i + 1]].copy()) for i in range(len(sizes))]
+    if case.get('shared'):
+        one = x0[:sizes[0]].copy()
+        sigs = [pym.Signal(f'x{i}', one) for i in range(len(sizes))]
+    if case.get('sigkind') in ('fancy', 'basic'):
+        # the variables are slices of ONE signal: contiguous parts ('basic') or index arrays into a reversed order
+        base_sig = pym.Signal('x', np.zeros(n))
+        where = np.arange(n) if case['sigkind'] == 'basic' else np.arange(n)[::-1]
+        st = np.zeros(n)
+        st[where] = x0
+        base_sig.state = st
+        sigs = [base_sig[slice(int(offs[i]), int(offs[i + 1]))] if case['sigkind'] == 'basic'
+                else base_sig[where[offs[i]:offs[i + 1]].copy()] for i in range(len(sizes))]
     for i_ in SCALAR_SIGNALS.get(case['layout'], []):
         sigs[i_].state = float(x0[offs[i_]])
     if case.get('xdtype') == 'int':     # integer-typed start design (np.ones(n, dtype=int)): a legitimate input
@@ -258,6 +280,7 @@ def judge_run(case, tol, stop):
     kind = case['kind']
     lo_full, hi_full = oc.full(xmin, n), oc.full(xmax, n)
     multi = 'multi' if len(sizes) > 1 else 'single'
+    c_opt = np.maximum(c, 0.0)       # what the optimum is judged with: a sensitivity of the wrong sign counts as zero
     V, tags, obs = [], set(), []
     nchecks = 0
     narrowed = dict(case, runs=[[tol, stop]])
@@ -376,8 +399,8 @@ def judge_run(case, tol, stop):
     if kind == 'inv' and exc is None and shapes_ok and flat:
         if stop != 'off':
             tags.add('default_stop')
-            judged = not V and case['start'] != 'near_out' and case['c'] != 'zero'   # (measured on this sub-lattice)
-            opt = oc.analytic_optimum_inv(c, xmin, xmax, vol, tol) if judged else None
+            judged = not V and case['start'] != 'near_out' and case['c'] not in ('zero', 'noise')   # (measured on this sub-lattice)
+            opt = oc.analytic_optimum_inv(c_opt, xmin, xmax, vol, tol) if judged else None
             if opt is not None and opt['mu'][0] < L2INIT - tol:
                 # with the default stopping rules (relative change of objective / design below 1e-4) the run ends near
                 # the optimum: the objective gap is bounded by DEFAULT_STOP_GAP (measured margin, DESIGN section 6)
@@ -391,7 +414,7 @@ def judge_run(case, tol, stop):
         elif V:
             tags.add('convergence_not_judged_after_iteration_violation')
         else:
-            opt = oc.analytic_optimum_inv(c, xmin, xmax, vol, tol)
+            opt = oc.analytic_optimum_inv(c_opt, xmin, xmax, vol, tol)
             if opt is None:
                 tags.add('infeasible_volume')
             elif opt['mu'][0] >= L2INIT - tol:
@@ -400,10 +423,10 @@ def judge_run(case, tol, stop):
             else:
                 nchecks += 2
                 xe = flat[-1]
-                fe_ = oc.objective('inv', c, xe)
+                fe_ = oc.objective('inv', c_opt, xe)
                 sf = 1e-9 * max(1.0, abs(fe_)) + 1e-12
                 sx = 1e-9 * max(1.0, float(np.max(np.abs(xe)))) + 1e-12
-                pos = c > 0
+                pos = c_opt > 0
                 okf = opt['f_lo'] - sf <= fe_ <= opt['f_hi'] + sf
                 okx = bool(np.all(xe[pos] >= opt['x_lo'][pos] - sx) and np.all(xe[pos] <= opt['x_hi'][pos] + sx))
                 tags.add('converged' if okf and okx else 'not_converged')
@@ -423,7 +446,7 @@ def execute(case):
     states = trans = checks = 0
     keys, tags, obs, V = [], set(), [], []
     base = '|'.join(str(case.get(k)) for k in ('layout', 'rev', 'kind', 'c', 'start', 'bounds', 'move', 'maxvol', 'table',
-                                                'cscale', 'xdtype'))
+                                                'cscale', 'xdtype', 'shared', 'sigkind'))
     for tol, stop in case['runs']:
         r = judge_run(case, tol, stop)
         states += max(r['iterations'], 1)
@@ -515,10 +538,23 @@ VARIANT_AXES = dict(
 VARIANTS = [{'cscale': 1e-9}, {'xdtype': 'int'}]
 
 
+# wrong-sign rounding noise in one sensitivity; all variable signals started from one array object; variables that are
+# slices (contiguous / index arrays) of one signal
+NOISE_AXES = dict(VARIANT_AXES, kind_c=[['inv', 'noise'], ['comp', 'noise'], ['invsq', 'noise']], bounds=['scalar', 'vec'])
+SHARED_AXES = dict(VARIANT_AXES, layouts=['two_3+3', 'len1+len1'])
+SLICE_AXES = dict(VARIANT_AXES, layouts=['two_2+3', 'three_1+2+3', 'one3_bare'])
+
+
 def variant_cases(t):
     for var in VARIANTS:
         for c in _cases(VARIANT_AXES, t):
             yield dict(c, **var)
+    yield from _cases(NOISE_AXES, t)
+    for c in _cases(SHARED_AXES, t):
+        yield dict(c, shared=True)
+    for sk in ('basic', 'fancy'):
+        for c in _cases(SLICE_AXES, t):
+            yield dict(c, sigkind=sk)
 
 
 def generate(tier, seed):
